@@ -1220,6 +1220,13 @@ class ReadDataByIdentifierResponse(
         for identifier in self.data_identifiers:
             check_data_identifier(identifier)
 
+        if len(self.data_identifiers) < 1:
+            raise ValueError("At least one dataIdentifier is required")
+
+        for record in self.data_records:
+            if len(record) < 1:
+                raise ValueError("A dataRecord must not be empty")
+
     @property
     def data_record(self) -> bytes:
         return self.data_records[0]
